@@ -562,7 +562,7 @@ def run_thorough(ctx):
     ix = ctx.index
     R = 'C01.d(iv)+'
     ctx.describe(R, 'package-wide: in-place array writes only on fresh arrays')
-    mods = sorted(m for m in ix.modules if m.startswith(('glue.core', 'glue.utils', 'glue.viewers', 'glue.plugins'))
+    mods = sorted(m for m in ix.modules if m.startswith(('glue.core', 'glue.utils'))
                   and not m.startswith('glue.core.data_factories') and not m.startswith('glue.core.data_exporters'))
     done = {'glue.core.subset', 'glue.core.joins', 'glue.core.fixed_resolution_buffer', 'glue.core.data',
             'glue.core.data_derived', 'glue.core.roi'}
